@@ -13,9 +13,11 @@
                        parsers whose identifiers do not collide with suffixes/preamble names. *)
 From Coq Require Import List String ZArith NArith Bool.
 Import ListNotations.
-From Anthem Require Import Syntax.Fol Syntax.Tff Sem.Domain Sem.Sat Sem.TffSem Model.TptpPrint
-  Proofs.TptpSem Proofs.TptpRead Proofs.TptpMain.
+From Anthem Require Import Syntax.Fol Syntax.Tff Sem.Domain Sem.Sat Sem.TffSem Sem.TffWt Model.Problem Model.TptpPrint
+  Model.ProblemPrint Model.TffText
+  Proofs.TptpSem Proofs.TptpRead Proofs.TptpMain Proofs.ProblemCtx Proofs.ProblemText.
 Open Scope string_scope.
+Open Scope list_scope.
 
 (* Every formula anthem renders: the TPTP grammar reads the rendering back as ONE formula g, and g
    has, in the standard structure determined by (FI, M) under the assignment determined by e, the
@@ -51,7 +53,81 @@ Theorem C06_total :
 Proof. exact tptp_print_total. Qed.
 Print Assumptions C06_total.
 
+(* ================= formulas IN A PROBLEM: constants are interpreted by their declaration =================
+   C06/C06_meaning above interpret a constant by the shape of its name ([tstruct_of]: `c_g/_i/_s` is
+   a placeholder), so [wf_tptp] had to exclude every symbolic constant that ends in a sort suffix,
+   among them every constant `p__s` produced by rename_conflicting_symbols (audit A7).  An emitted
+   problem DECLARES its constants (`type_symbol_i` = symbolic constant, `type_function_constant_i`
+   = placeholder); [tstruct_in K FI M] interprets constants by such a signature K, and
+   [tstruct_of FI M = tstruct_in [] FI M].  The two halves, generalised: *)
+
+(* (ii) reading needs only the lexical half of wf_tptp *)
+Theorem C06_reading_lex :
+  forall F : formula, wf_lex F = true -> tff_read (print_formula F) = Some (tff_of_formula F).
+Proof. exact tff_read_print_lex. Qed.
+Print Assumptions C06_reading_lex.
+
+(* (i) meaning needs only that the names are declared as what they are used as *)
+Theorem C06_meaning_in :
+  forall (K : csig) (FI : fint) (M : pint) (F : formula), names_in K F = true ->
+  forall (te : tenv) (e : env), (forall n, te n = tenv_of e n) ->
+    (tff_sat (tstruct_in K FI M) te (tff_of_formula F) <-> csat FI M e F).
+Proof. exact tff_of_formula_sat_in. Qed.
+Print Assumptions C06_meaning_in.
+
+(* the old side condition is the instance K = [] *)
+Theorem C06_wf_tptp_split :
+  forall F : formula, wf_tptp F = true -> wf_lex F = true /\ names_in [] F = true.
+Proof. exact wf_tptp_split. Qed.
+Print Assumptions C06_wf_tptp_split.
+
+(* Every formula of a problem outside C09's IdentClass (ident_ok = true: identifiers are lower
+   words and declared once, binders are distinct upper words) that is lexically in the parser image:
+   the printed tokens are read back as ONE formula g, and g evaluated under the signature the
+   problem's own declarations determine has the truth value of the source formula, for every
+   interpretation of predicates and placeholders and every assignment. *)
+Theorem C06_in_problem :
+  forall (pb : problem) (a : pformula), ident_ok pb = true -> In a (pb_formulas pb) ->
+  wf_lex (pf_formula a) = true ->
+  exists g : tff_formula, tff_read (print_formula (pf_formula a)) = Some g /\
+    forall (FI : fint) (M : pint) (e : env),
+      tff_sat (tstruct_in (csig_of_decls (tp_decls (emit pb))) FI M) (tenv_of e) g <-> csat FI M e (pf_formula a).
+Proof. exact c06_in_problem. Qed.
+Print Assumptions C06_in_problem.
+
+(* the same for the problems of the pipeline, from C09's premises *)
+Theorem C06_in_pipeline :
+  forall (raw : problem) (d : decomposition) (pb : problem) (a : pformula),
+  (forall b, In b (pb_formulas raw) -> closed_formula (pf_formula b) = true) ->
+  (forall b, In b (pb_formulas raw) -> cmps_nonempty (pf_formula b) = true) ->
+  In pb (pipeline raw d) -> ident_ok pb = true -> In a (pb_formulas pb) ->
+  exists g : tff_formula, tff_read (print_formula (pf_formula a)) = Some g /\
+    forall (FI : fint) (M : pint) (e : env),
+      tff_sat (tstruct_in (csig_of_decls (tp_decls (emit pb))) FI M) (tenv_of e) g <-> csat FI M e (pf_formula a).
+Proof. exact c06_in_pipeline. Qed.
+Print Assumptions C06_in_pipeline.
+
+(* ... and about the EMITTED TEXT: whatever the specification reader makes of the bytes
+   [problem_display pb], it contains for every source formula a named formula with that name and
+   role whose truth under the signature declared IN THE TEXT is that of the source formula *)
+Theorem C06_text :
+  forall (pb : problem) (txt : string) (tp : tff_problem), ident_ok pb = true ->
+  (forall a, In a (pb_formulas pb) -> wf_lex (pf_formula a) = true) ->
+  problem_display pb = Some txt -> read_problem txt = Some tp ->
+  forall a, In a (pb_formulas pb) ->
+  exists nf : tff_named, In nf (tp_formulas tp) /\ n_name nf = pf_name a /\ n_role nf = tff_role_of (pf_role a) /\
+    forall (FI : fint) (M : pint) (e : env),
+      tff_sat (tstruct_in (csig_of_decls (tp_decls tp)) FI M) (tenv_of e) (n_formula nf) <-> csat FI M e (pf_formula a).
+Proof. exact c06_text. Qed.
+Print Assumptions C06_text.
+
 (* ---------- non-vacuity and regression examples ---------- *)
+(* audit A7: the chain axiom between a1 and the renamed constant a__s.  Interpreted by suffix the
+   constant a__s is the placeholder `a_` of sort symbol; interpreted by declaration it is itself *)
+Example C06_ex_renamed_by_declaration :
+  let F := FAtomic (ACmp (GSym (SSym "a1")) [mkguard RLt (GSym (SSym "a__s"))]) in
+  wf_tptp F = false /\ wf_lex F = true /\ names_in [("a1", CSelf); ("a__s", CSelf)] F = true.
+Proof. repeat split; vm_compute; reflexivity. Qed.
 (* not 1 <= X <= 3  (finding F1, repaired by a074988): rendered ~(A & B), read back as ~(A & B) *)
 Definition ex_f1 : formula :=
   FNot (FAtomic (ACmp (GInt (INum 1)) [mkguard RLe (GVar "X"); mkguard RLe (GInt (INum 3))])).
